@@ -46,7 +46,7 @@ type history struct {
 	Steps []step
 }
 
-var openOps = []string{"key-shell", "health-shell", "no-channel", "channel-no-shell", "multi-shell", "two-channels"}
+var openOps = []string{"key-shell", "health-shell", "no-channel", "channel-no-shell", "multi-shell", "two-channels", "request-flood", "request-flood"}
 var failOps = []string{"wrong-key", "wrong-password", "tcp-only", "garbage-banner"}
 
 func genHistory(t *rapid.T) history {
@@ -57,6 +57,9 @@ func genHistory(t *rapid.T) history {
 		switch rapid.IntRange(0, 9).Draw(t, "opk") {
 		case 0, 1, 2, 3:
 			s.Op = rapid.SampledFrom(openOps).Draw(t, "open")
+			if s.Op == "request-flood" {
+				s.Arg = rapid.SampledFrom([]int{1, 3, 16, 17, 40, 200}).Draw(t, "flood")
+			}
 		case 4:
 			s.Op = rapid.SampledFrom(failOps).Draw(t, "fail")
 		case 5, 6:
@@ -182,6 +185,7 @@ func evalHistory(h history) lib.Outcome {
 		}
 	}
 
+	floodArg := 0
 	tryOpen := func(kind string) (bool, error) {
 		user, auth := "tester", keyAuth
 		if kind == "health-shell" {
@@ -211,6 +215,26 @@ func evalHistory(h history) lib.Outcome {
 				}
 			}
 			oddEnd = true
+		case "request-flood":
+			// a session that, with or without a shell, sends requests of kinds the server does not serve (what a stock ssh
+			// client does: pty-req, env, window-change): the server ends such a connection itself
+			if ch, reqs, err := cl.OpenChannel("session", nil); err == nil {
+				go gossh.DiscardRequests(reqs)
+				if floodArg%2 == 0 {
+					ch.SendRequest("shell", true, nil)
+				}
+				kinds := []string{"window-change", "env", "pty-req", "exec", "subsystem"}
+				for i := 0; i < floodArg; i++ {
+					if _, err := ch.SendRequest(kinds[i%len(kinds)], false, []byte{0, 0, 0, 1, 'x'}); err != nil {
+						break
+					}
+				}
+			}
+			oddEnd = true
+			lifetime++
+			// the server closes this connection; it never joins the set of open ones
+			go func() { time.Sleep(300 * time.Millisecond); tcp.Close() }()
+			return true, nil
 		case "two-channels":
 			for i := 0; i < 2; i++ {
 				if ch, reqs, err := cl.OpenChannel("session", nil); err == nil {
@@ -228,7 +252,8 @@ func evalHistory(h history) lib.Outcome {
 	for i, st := range h.Steps {
 		trace = append(trace, fmt.Sprintf("%d:%s/%d open=%d", i, st.Op, st.Arg, len(open)))
 		switch st.Op {
-		case "key-shell", "health-shell", "no-channel", "channel-no-shell", "multi-shell", "two-channels":
+		case "key-shell", "health-shell", "no-channel", "channel-no-shell", "multi-shell", "two-channels", "request-flood":
+			floodArg = st.Arg
 			// quiesce first so that acceptance is decided by the model alone
 			if _, ok := settle("before open"); !ok {
 				last, _, _, _ := lastCount(s)
